@@ -207,12 +207,20 @@ func checkCLIFiles(p *Program, r *Result) {
 					}
 					// value flows into the ranged slice?
 					appended = append(appended, t)
+					if os.Getenv("AGECHECK_DEBUG_C15") != "" {
+						fmt.Fprintf(os.Stderr, "C15 appended: %s\n", t)
+					}
 					appBlocks = append(appBlocks, c.Block())
 				}
 				for _, s := range srcs {
 					found := false
 					for i, t := range appended {
-						if !strings.Contains(t, s.want) {
+						if s.key == "identity-files" {
+							// absPath(f.Value) for f ranging over the -i/-j flags
+							if !(strings.Contains(t, "absPath(Field(") && strings.Contains(t, ".Value))") && strings.Contains(t, "identityFlag")) {
+								continue
+							}
+						} else if !strings.Contains(t, s.want) {
 							continue
 						}
 						if s.key == "input" {
